@@ -126,6 +126,8 @@ def gen_case(rng, tier):
             op["form"] = rng.choice(("lists", "stack3d", "view", "tuple"))
         if insts[k]["type"] == "imager" and kind in ("transform", "transform2"):
             op["n_jobs"] = rng.choice((None, None, 2, 3, 1))
+        if insts[k]["type"] == "imager" and op.get("form") != "lists" and rng.random() < 0.3:
+            op["dtype"] = "f32"                   # what ripser hands out; estimator and fresh twin get the same arrays
         ops.append(op)
     return {"inputs": {"insts": insts, "ldata": ldata, "idata": idata}, "ops": ops,
             "config": {"parallel_mode": rng.choice(("proc", "thread-coop", "thread-preempt")), "p_switch": rng.choice((3, 8)),
@@ -293,6 +295,10 @@ def _run(case, sched, world):
         it, est = insts[k], ests[k]
         tname = "PersistenceImager" if it["type"] == "imager" else "PersistenceLandscaper"
         X = data_for(it, inp, j)
+        if it["type"] == "imager" and op.get("dtype") is not None:
+            if op["dtype"] != "f32" or op.get("form") == "lists":
+                raise InvalidCase("dtype")
+            X = [x.astype(np.float32) for x in X]
         if it["type"] == "imager" and op.get("alias") is not None and X:
             X = X + [X[int(op["alias"]) % len(X)]]       # same object twice (e.g. resampling with replacement)
         Xkeep = [x.copy() for x in X]
@@ -303,7 +309,7 @@ def _run(case, sched, world):
         elif form == "tuple":
             Xgiven = tuple(X)
         elif form == "view":
-            wide = [np.full((len(x), 4), 99.0) for x in X]
+            wide = [np.full((len(x), 4), 99.0, dtype=x.dtype) for x in X]
             for w_, x in zip(wide, X):
                 w_[:, 0:3:2] = x
             Xgiven = [w_[:, 0:3:2] for w_ in wide]
@@ -437,6 +443,11 @@ def shrink_candidates(case):
             c = copy.deepcopy(case)
             c["ops"][i]["n_jobs"] = None
             yield c
+        for key in ("dtype", "form", "alias"):
+            if o.get(key) is not None:
+                c = copy.deepcopy(case)
+                del c["ops"][i][key]
+                yield c
     for k, it in enumerate(case["inputs"]["insts"]):
         if it["type"] == "landscaper":
             for key in ("start", "stop", "flatten"):
